@@ -126,6 +126,15 @@ impl<'a, T: Transport> Transferrer<'a, T> {
                                 // notify_waiters() wakes only futures that are already registered, so a
                                 // completion landing between our read of the map and the await would
                                 // otherwise be missed and this task would wait forever.
+                                // Verification hook (add-only, off unless built with --cfg nijaru_sy_verif):
+                                // hold this task between its read of the map and its registration.
+                                #[cfg(nijaru_sy_verif)]
+                                if let Some(ms) = std::env::var("SY_VERIF_HL_GAP_MS")
+                                    .ok()
+                                    .and_then(|v| v.parse::<u64>().ok())
+                                {
+                                    tokio::time::sleep(std::time::Duration::from_millis(ms)).await;
+                                }
                                 let notified = notify.notified();
                                 tokio::pin!(notified);
                                 notified.as_mut().enable();
